@@ -148,6 +148,64 @@ theorem C10_managed_rename_counterexample :
     2 ∈ (fullGC (ofImage img) []).dir ∧ 2 ∉ living (fullGC (ofImage img) []) := by
   decide
 
+/-- **registration precedes creation, forgetting follows the durable unlink**: along every trace
+that respects R1–R3, in every crash image whose `.managed.json` is the newest one written
+(every un-synced `.managed.json` rename applied), every file that exists is listed in it —
+the side condition of `C10_after_crash_partial`. -/
+theorem C10_existing_files_are_managed (s0 : Dir) (h0 : RInv s0) (t : List Op) (hd : RegDisc s0 t)
+    (k : Nat) (img : Image) (hi : CrashImage (s0.run (t.take k)) img)
+    (hm : img.atom MANAGED = ((s0.run (t.take k)).atom MANAGED).visible) :
+    ∀ p, img.file p ≠ none →
+      ∃ b, img.atom MANAGED = some b ∧ p ∈ b.refs := by
+  have hdk : RegDisc s0 (t.take k) := by
+    clear hi hm
+    induction t generalizing s0 k with
+    | nil => simpa using hd
+    | cons op t ih =>
+      cases k with
+      | zero => trivial
+      | succ k => exact ⟨hd.1, ih _ (h0.step op hd.1) hd.2 k⟩
+  have hinv := h0.run _ hdk
+  intro p hp
+  have hout := hi.1 p
+  have hmp : ((s0.run (t.take k)).file p).mayPresent = true := by
+    cases hf : img.file p with
+    | none => exact absurd hf hp
+    | some v =>
+      obtain ⟨n, sl⟩ := v
+      rw [hf] at hout
+      simp only [FileSt.outcome, Bool.and_eq_true] at hout
+      simpa [FileSt.mayPresent] using hout.1
+  have hin := hinv p hmp
+  unfold visibleManaged at hin
+  rw [← hm] at hin
+  cases hb : img.atom MANAGED with
+  | none => simp [hb] at hin
+  | some b => exact ⟨b, rfl, by simpa [hb] using hin⟩
+
+/-- the empty directory satisfies the registration invariant -/
+theorem C10_rinv_empty : RInv Dir.empty := by
+  intro p hp
+  simp [Dir.empty, FileSt.mayPresent] at hp
+
+/-- non-vacuity: register, create, write, terminate, sync, delete, sync, forget -/
+example : RegDisc Dir.empty
+    [.atomicWrite MANAGED ⟨0, 0, 5, [0, 2]⟩, .create 2, .write 2 4, .terminate 2, .syncDir, .delete 2, .syncDir,
+     .atomicWrite MANAGED ⟨0, 7, 3, [0]⟩] := by
+  simp [RegDisc, RegOK, Dir.step, Dir.empty, visibleManaged, AtomSt.visible, upd, FileSt.mayPresent, FileSt.sync, MANAGED]
+  intro p
+  by_cases h : p = 2 <;> simp [h]
+
+/-- the order of the seeded change `create; register` breaks R1 at the create -/
+example : ¬ RegDisc Dir.empty [.create 2, .atomicWrite MANAGED ⟨0, 0, 5, [0, 2]⟩] := by
+  simp [RegDisc, RegOK, Dir.empty, visibleManaged, AtomSt.visible]
+
+/-- forgetting a path before its unlink is durable breaks R2 -/
+example : ¬ RegDisc Dir.empty
+    [.atomicWrite MANAGED ⟨0, 0, 5, [0, 2]⟩, .create 2, .syncDir, .delete 2, .atomicWrite MANAGED ⟨0, 7, 3, [0]⟩] := by
+  simp [RegDisc, RegOK, Dir.step, Dir.empty, visibleManaged, AtomSt.visible, upd, FileSt.mayPresent, FileSt.sync, MANAGED]
+  exact ⟨2, by decide, by decide⟩
+
 /-! ## non-vacuity -/
 
 /-- a state with a committed segment (files 10,11), a segment being written (20,21; 21 not yet
